@@ -451,7 +451,9 @@ def _crop_case(run, s):
     kw = dict(size=cfg["size"], padding=cfg["padding"], pad_if_needed=cfg["pad_if_needed"], fill=cfg["fill"], padding_mode=cfg["padding_mode"])
     padded = G.reference_padded(x, (th, tw), cfg["padding"], cfg["pad_if_needed"], cfg["fill"], cfg["padding_mode"])
     hp, wp = G.hw_of(padded)
-    assert hp >= th and wp >= tw, "generator left the domain"
+    if hp < th or wp < tw:  # generator left the stated domain (never seen; not a verdict about the repository)
+        run.count("skipped_outside_domain")
+        return
     run.cover(kind, s["io"], cfg["rel"], cfg["padding_mode"], cfg["padding"] is not None, _sz_class(th, s["h"]), _sz_class(tw, s["w"]))
     ctx = {}
     if kind == "random_crop":
